@@ -305,7 +305,24 @@ def run(ctx):
                    'path)', minimum=2)
     rst = ctx.rule('R-START', '(shared with C12) ToFuture(e)/Detach(e): the executor is bound to the head returned by '
                    'the rewind and that head is submitted to it', minimum=2)
+    rpk = ctx.rule('R-LOCKSET', '(shared with C08) FairThreadPool: the acceptance test and the enqueue happen under one '
+                   'lock hold; jobs are Called / Dropped with the lock released', minimum=6)
+    rpd = ctx.rule('R-DRAIN', '(shared with C08) a worker returns only after seeing the queue empty; the stopped bit is '
+                   'set only behind the drain test', minimum=2)
+    rwk = ctx.rule('R-WAKE', '(shared with C08) an accepted job is followed by a notification; stop notifies every '
+                   'worker; a worker sleeps only after re-testing queue and stop under the lock', minimum=3)
+    rff = ctx.rule('R-FIFO', '(shared with C08) pool queue discipline', minimum=1)
+    rja = ctx.rule('R-JOINALL', '(shared with C08) Wait() joins every worker', minimum=1)
+    rls = ctx.rule('R-LISTSPEC', '(shared with C08) detail::List, the queue of FairThreadPool and ManualExecutor, '
+                   'implements the sequence it stands for: no job is lost or duplicated by the container', minimum=24)
+    rjf = ctx.rule('R-JOBFIELDS', '(shared with C07) every member of Strand that can hold jobs and is used by Call() is '
+                   'drained by Drop() too', minimum=1)
+    from rules import lib_list
     for cfg, fb in sorted(fbs.items()):
+        ctx.guard(lambda: lib_exec.check_pool_lockset(ctx, fb, rpk, rpd))
+        ctx.guard(lambda: lib_exec.check_pool_wake(ctx, fb, rwk, rff, rja))
+        ctx.guard(lambda: lib_list.check_list_spec(ctx, fb, rls))
+        ctx.guard(lambda: lib_exec.check_job_fields(ctx, fb, rjf, 'yaclib::Strand'))
         n = lib_exec.check_submit_linear(ctx, fb, rl)
         if n < 5:
             ctx.broken('only %d Submit overriders found in %s (Inline<false>, Inline<true>, Manual, Strand, '
